@@ -83,20 +83,45 @@ func (ap *app) conduct(ctx context.Context) (err error) {
 
 	var finalErr error
 	var interrupt bool
+
+	// A later stage that ends without error has merely been told to end
+	// by the stage before it, and can report that to us before the
+	// earlier stage does. That is the normal order of shutdown, not a
+	// failure: cancelling the collector at that point would drop the
+	// auditors' last reports, and with them the verdict. So below, a
+	// later stage that ended without error is noted (its channel is no
+	// longer watched) and we keep waiting.
+	spotErrCh, auErrCh, colErrCh := th.spotErrCh, th.auErrCh, th.colErrCh
+
 	// First stage of shutdown: wait for the prompter to finish.
-	select {
-	case err := <-th.prErrCh:
-		finalErr = combineErrors(err, finalErr)
-		// ok
-	case err := <-th.spotErrCh:
-		finalErr = combineErrors(err, finalErr)
-		interrupt = true
-	case err := <-th.auErrCh:
-		finalErr = combineErrors(err, finalErr)
-		interrupt = true
-	case err := <-th.colErrCh:
-		finalErr = combineErrors(err, finalErr)
-		interrupt = true
+	for waiting := true; waiting; {
+		waiting = false
+		select {
+		case err := <-th.prErrCh:
+			finalErr = combineErrors(err, finalErr)
+			// ok
+		case err := <-spotErrCh:
+			finalErr = combineErrors(err, finalErr)
+			if err == nil {
+				spotErrCh, waiting = nil, true
+			} else {
+				interrupt = true
+			}
+		case err := <-auErrCh:
+			finalErr = combineErrors(err, finalErr)
+			if err == nil {
+				auErrCh, waiting = nil, true
+			} else {
+				interrupt = true
+			}
+		case err := <-colErrCh:
+			finalErr = combineErrors(err, finalErr)
+			if err == nil {
+				colErrCh, waiting = nil, true
+			} else {
+				interrupt = true
+			}
+		}
 	}
 	if interrupt {
 		log.Info(ctx, "something went wrong other than prompter, cancelling everything")
@@ -114,16 +139,27 @@ func (ap *app) conduct(ctx context.Context) (err error) {
 	promptDone() // in case not called before.
 
 	// Second stage: wait for the spotlights to finish.
-	select {
-	case err := <-th.spotErrCh:
-		finalErr = combineErrors(err, finalErr)
-		// ok
-	case err := <-th.auErrCh:
-		finalErr = combineErrors(err, finalErr)
-		interrupt = true
-	case err := <-th.colErrCh:
-		finalErr = combineErrors(err, finalErr)
-		interrupt = true
+	for waiting := true; waiting; {
+		waiting = false
+		select {
+		case err := <-th.spotErrCh:
+			finalErr = combineErrors(err, finalErr)
+			// ok
+		case err := <-auErrCh:
+			finalErr = combineErrors(err, finalErr)
+			if err == nil {
+				auErrCh, waiting = nil, true
+			} else {
+				interrupt = true
+			}
+		case err := <-colErrCh:
+			finalErr = combineErrors(err, finalErr)
+			if err == nil {
+				colErrCh, waiting = nil, true
+			} else {
+				interrupt = true
+			}
+		}
 	}
 	if interrupt {
 		log.Info(ctx, "something went wrong after prompter terminated: cancelling spotlights, audience and collector")
